@@ -899,6 +899,23 @@ package query
 
 // C17 / C07: the sort keys an analytic function computes for its own ORDER BY do not outlive it: the next analytic function
 // (RANK without ORDER BY, ...) and the query's own ORDER BY / LIMIT WITH TIES start without keys
+// C19 / C17: the values of one window frame: the frame is cut to the partition before anything is sized or walked, so a
+// frame whose start lies after its end (ROWS BETWEEN 1 FOLLOWING AND 1 PRECEDING) or whose bounds lie far outside the
+// partition neither asks make() for a negative / absurd capacity (Fatal Error) nor walks billions of empty positions
+//@ func windowValues
+//@   property C19 C17
+//@   safety
+//@   abstract *
+//@   requires scope != nil && scope.Tx != nil && valueCache != nil && len(expr.Args) >= 1 && len(scope.Records) >= 1 && scope.Records[0].view != nil
+//@   loop 1 invariant 0 <= low && high <= len(partition) - 1 && low <= i && anScope != nil && len(anScope.Records) >= 1
+//@   terminates
+//@   loop 1 decreases high - i + 1
+//@   modifies *
+//@ func (*ReferenceScope).CreateScopeForAnalytics
+//@   trusted assumed: a scope over the same view positioned before its first row (shape only)
+//@   requires len(rs.Records) >= 1
+//@   ensures result != nil && fresh(result) && fresh(result.Records) && len(result.Records) == len(rs.Records)
+//@   modifies fresh
 //@ func NewFunctionNotExistError
 //@   trusted assumed: error constructor
 //@   ensures result != nil
@@ -1387,6 +1404,15 @@ package query
 //@ func (ViewMap).Dispose
 //@   trusted assumed: closes the cached view's handler and drops the entry
 //@   modifies * except F:query.ReferenceScope. F:query.Transaction. F:query.View. F:query.FileInfo.
+// C19: a file named as an inline table that the transaction already holds in its cache: the cached copy has an open file
+// only when it was loaded for update; a copy loaded for reading has none (the handle is closed after the read), and the
+// file is opened again (it used to call File() on the missing handle: Fatal Error)
+//@ func loadInlineObjectFromFile
+//@   property C19 C13
+//@   safety
+//@   abstract *
+//@   requires scope != nil && scope.Tx != nil && scope.Tx.viewLoadingMutex != nil && !mutexHeld[scope.Tx.viewLoadingMutex] && scope.Tx.Flags != nil
+//@   modifies *
 //@ func loadObjectFromFile
 //@   property C13
 //@   abstract *
